@@ -168,7 +168,7 @@ def queries(h, cfg):
     k_b = 1 + ce + 1 + cp + 1
 
     # (c) pending: read, write-one-to-clear, read -----------------------------------------------------------
-    def w1c(h, fr):
+    def w1c(h, fr, gap=1):
         a = idle(h, fr[0])
         ta = 1
         a1, Pa, t = read_reg(h, fr, ta, "pending")
@@ -176,8 +176,9 @@ def queries(h, cfg):
         a2, Wv, t = write_reg(h, fr, t, "pending")
         a += a2
         T = t - 1                      # frame of the write to the last address; the register strobes at T+1
-        a += idle(h, fr[t])
-        tb = t + 1
+        if gap:
+            a += idle(h, fr[t])
+        tb = t + gap                   # gap = 0: the second read is issued in the very cycle the clear is applied
         a3, Pb, t3 = read_reg(h, fr, tb, "pending")
         a += a3
         if n == 0:
@@ -212,7 +213,10 @@ def queries(h, cfg):
         a2, E, t2 = read_reg(h, fr, t, "enable")
         return a1 + a2, z3.Or(P != 0, E != 0)
     k_d = cp + ce + 1
-    qs = [Q("enable-write-reads-back", k_a, enable_rw, max_prefix=2),
+    def w1c_nogap(h, fr):
+        return w1c(h, fr, gap=0)
+    qs = [Q("pending-read-in-the-clear-cycle", k_c - 1, w1c_nogap, max_prefix=2),
+          Q("enable-write-reads-back", k_a, enable_rw, max_prefix=2),
           Q("line-is-enable-and-pending-snapshot", k_b, line, max_prefix=2,
             twin=(lambda h, fr: (line(h, fr)[0], is1(fr[1 + ce + 1].sig(h.mon.src.i)))) if n else None),
           Q("pending-write-one-to-clear", k_c, w1c, twin=w1c_twin, max_prefix=2),
@@ -231,11 +235,26 @@ def check(cfg, out, stats):
                     f"ConnectionError: {str(e)[:120]}",
             "query": "connect", "cfg": cfg, "stimulus": [], "prefix": 0, "k": 0, "detail": {}})
         return
+    h = maker(cfg)()
+    for name in ("enable", "pending"):
+        s_, e_ = h.regs.get(name, (0, 0))
+        if (e_ - s_) * cfg["dw"] < cfg["n"]:
+            from ..bmc import mark_violation
+            mark_violation("register-too-small")
+            out.violations.append({
+                "key": f"register-too-small@{cfg['n']}:{cfg['dw']}:{cfg['al']}",
+                "what": f"C14 the memory map gives register '{name}' {e_ - s_} addresses of {cfg['dw']} bits for "
+                        f"{cfg['n']} events: the mask cannot be written / read back at the reported addresses",
+                "query": "capacity", "cfg": cfg, "stimulus": [], "prefix": 0, "k": 0, "detail": {}})
+            return
     run_queries(sys.modules[__name__], cfg, out, stats, cosim_cycles=16)
 
 
 def replay(v):
     import sys
+    if v["query"] == "capacity":
+        h = maker(v["cfg"])()
+        return any((e_ - s_) * v["cfg"]["dw"] < v["cfg"]["n"] for s_, e_ in h.regs.values())
     if v["query"] == "connect":
         try:
             maker(v["cfg"])()
